@@ -49,6 +49,8 @@ Lemma ob_auth_header : auth_header = b "Proxy-Authorization".
 Proof. vm_compute. reflexivity. Qed.
 Lemma ob_basic_prefix : basic_prefix = b "Basic ".
 Proof. vm_compute. reflexivity. Qed.
+Lemma ob_basic_prefix_nonempty : basic_prefix <> [].
+Proof. vm_compute. discriminate. Qed.
 
 (* time frame: start <= hour < end *)
 Lemma ob_timeframe_half_open : tf_start_inclusive = true /\ tf_end_exclusive = true.
